@@ -179,6 +179,8 @@ for _m in ('match', 'search', 'fullmatch', 'findall', 'sub', 'split'):
 for _m in ('group', 'groups', 'groupdict', 'start', 'end', 'span'):
     METHODS.add((_re.Match, _m))
 DOTTED_CALLS['collections.OrderedDict'] = _collections.OrderedDict
+import operator as _operator
+DOTTED_CALLS['operator.index'] = _operator.index       # TypeError for a value that is not an integer: evaluated behaviour
 import base64 as _base64
 # the base64 codec of the standard library (its leniency - characters outside the alphabet are dropped unless validate=True - is
 # part of what the evaluated code relies on)
@@ -345,6 +347,11 @@ class Evaluator:
                 if isinstance(base, (list, tuple, dict, bytes, bytearray, str)):
                     raise           # out of range / missing key on a plain container: part of the evaluated behaviour
                 raise Unsupported('%s' % ast.unparse(n))
+            except TypeError as e:
+                if isinstance(base, (list, tuple, bytes, bytearray, str)) and (key is None or isinstance(key, (str, float, bytes))) and \
+                        not isinstance(base, str if isinstance(key, str) else ()):
+                    raise           # a position of another type than an integer: the TypeError of the sequence is the evaluated behaviour
+                raise Unsupported('%s: %s' % (ast.unparse(n), e))
             except Exception as e:      # pylint: disable=broad-except
                 raise Unsupported('%s: %s' % (ast.unparse(n), e))
         if isinstance(n, ast.Call):
@@ -492,6 +499,8 @@ class Evaluator:
             except (UnicodeError, IndexError):
                 raise
             except TypeError as e:
+                if d == 'operator.index' and len(args) == 1 and not kwargs:
+                    raise       # what the call is there for: the TypeError of a value that is not an integer
                 raise Unsupported('%s: %s' % (ast.unparse(n)[:60], e))
         if isinstance(n.func, ast.Attribute) and isinstance(n.func.value, ast.Name) and n.func.value.id not in self.env and \
                 (n.func.value.id, n.func.attr) in TYPE_METHODS:
